@@ -13,9 +13,9 @@ base/Tree.vos base/Tree.vok base/Tree.required_vos: base/Tree.v
 base/Types.vo base/Types.glob base/Types.v.beautified base/Types.required_vo: base/Types.v 
 base/Types.vio: base/Types.v 
 base/Types.vos base/Types.vok base/Types.required_vos: base/Types.v 
-extract/Api.vo extract/Api.glob extract/Api.v.beautified extract/Api.required_vo: extract/Api.v gen/T_zobrist.vo base/Bits.vo base/Types.vo base/BitBoard.vo geom/Geometry.vo geom/GenFns.vo geom/Lookup.vo model/Score.vo model/Abi.vo model/Text.vo model/Tracing.vo spec/Rules.vo model/Board.vo model/MoveGen.vo model/Apply.vo model/Fen.vo model/Search.vo
-extract/Api.vio: extract/Api.v gen/T_zobrist.vio base/Bits.vio base/Types.vio base/BitBoard.vio geom/Geometry.vio geom/GenFns.vio geom/Lookup.vio model/Score.vio model/Abi.vio model/Text.vio model/Tracing.vio spec/Rules.vio model/Board.vio model/MoveGen.vio model/Apply.vio model/Fen.vio model/Search.vio
-extract/Api.vos extract/Api.vok extract/Api.required_vos: extract/Api.v gen/T_zobrist.vos base/Bits.vos base/Types.vos base/BitBoard.vos geom/Geometry.vos geom/GenFns.vos geom/Lookup.vos model/Score.vos model/Abi.vos model/Text.vos model/Tracing.vos spec/Rules.vos model/Board.vos model/MoveGen.vos model/Apply.vos model/Fen.vos model/Search.vos
+extract/Api.vo extract/Api.glob extract/Api.v.beautified extract/Api.required_vo: extract/Api.v gen/T_zobrist.vo base/Bits.vo base/Types.vo base/BitBoard.vo geom/Geometry.vo geom/GenFns.vo geom/Lookup.vo model/Score.vo model/Abi.vo model/Text.vo model/Tracing.vo spec/Rules.vo model/Board.vo model/MoveGen.vo model/Apply.vo model/Fen.vo model/Search.vo model/Bot.vo
+extract/Api.vio: extract/Api.v gen/T_zobrist.vio base/Bits.vio base/Types.vio base/BitBoard.vio geom/Geometry.vio geom/GenFns.vio geom/Lookup.vio model/Score.vio model/Abi.vio model/Text.vio model/Tracing.vio spec/Rules.vio model/Board.vio model/MoveGen.vio model/Apply.vio model/Fen.vio model/Search.vio model/Bot.vio
+extract/Api.vos extract/Api.vok extract/Api.required_vos: extract/Api.v gen/T_zobrist.vos base/Bits.vos base/Types.vos base/BitBoard.vos geom/Geometry.vos geom/GenFns.vos geom/Lookup.vos model/Score.vos model/Abi.vos model/Text.vos model/Tracing.vos spec/Rules.vos model/Board.vos model/MoveGen.vos model/Apply.vos model/Fen.vos model/Search.vos model/Bot.vos
 extract/Extract.vo extract/Extract.glob extract/Extract.v.beautified extract/Extract.required_vo: extract/Extract.v extract/Api.vo
 extract/Extract.vio: extract/Extract.v extract/Api.vio
 extract/Extract.vos extract/Extract.vok extract/Extract.required_vos: extract/Extract.v extract/Api.vos
@@ -76,6 +76,9 @@ model/Board.vos model/Board.vok model/Board.required_vos: model/Board.v base/Bit
 model/Book.vo model/Book.glob model/Book.v.beautified model/Book.required_vo: model/Book.v base/Bits.vo base/Types.vo base/Tree.vo gen/T_book.vo spec/Rules.vo
 model/Book.vio: model/Book.v base/Bits.vio base/Types.vio base/Tree.vio gen/T_book.vio spec/Rules.vio
 model/Book.vos model/Book.vok model/Book.required_vos: model/Book.v base/Bits.vos base/Types.vos base/Tree.vos gen/T_book.vos spec/Rules.vos
+model/Bot.vo model/Bot.glob model/Bot.v.beautified model/Bot.required_vo: model/Bot.v base/Bits.vo base/Types.vo model/Score.vo model/Board.vo model/MoveGen.vo model/Apply.vo model/Search.vo
+model/Bot.vio: model/Bot.v base/Bits.vio base/Types.vio model/Score.vio model/Board.vio model/MoveGen.vio model/Apply.vio model/Search.vio
+model/Bot.vos model/Bot.vok model/Bot.required_vos: model/Bot.v base/Bits.vos base/Types.vos model/Score.vos model/Board.vos model/MoveGen.vos model/Apply.vos model/Search.vos
 model/Fen.vo model/Fen.glob model/Fen.v.beautified model/Fen.required_vo: model/Fen.v base/Bits.vo base/Types.vo base/BitBoard.vo geom/Geometry.vo model/Board.vo
 model/Fen.vio: model/Fen.v base/Bits.vio base/Types.vio base/BitBoard.vio geom/Geometry.vio model/Board.vio
 model/Fen.vos model/Fen.vok model/Fen.required_vos: model/Fen.v base/Bits.vos base/Types.vos base/BitBoard.vos geom/Geometry.vos model/Board.vos
@@ -121,6 +124,9 @@ proofs/GameTreeFacts.vos proofs/GameTreeFacts.vok proofs/GameTreeFacts.required_
 proofs/GeomSweeps.vo proofs/GeomSweeps.glob proofs/GeomSweeps.v.beautified proofs/GeomSweeps.required_vo: proofs/GeomSweeps.v base/Bits.vo base/Types.vo base/BitBoard.vo base/Sweep.vo geom/Geometry.vo geom/Lookup.vo geom/GenFns.vo
 proofs/GeomSweeps.vio: proofs/GeomSweeps.v base/Bits.vio base/Types.vio base/BitBoard.vio base/Sweep.vio geom/Geometry.vio geom/Lookup.vio geom/GenFns.vio
 proofs/GeomSweeps.vos proofs/GeomSweeps.vok proofs/GeomSweeps.required_vos: proofs/GeomSweeps.v base/Bits.vos base/Types.vos base/BitBoard.vos base/Sweep.vos geom/Geometry.vos geom/Lookup.vos geom/GenFns.vos
+proofs/IterFacts.vo proofs/IterFacts.glob proofs/IterFacts.v.beautified proofs/IterFacts.required_vo: proofs/IterFacts.v spec/Rules.vo base/Bits.vo base/Types.vo base/BitBoard.vo geom/Geometry.vo model/Board.vo model/MoveGen.vo proofs/BitsFacts.vo proofs/BitBoardFacts.vo spec/IterSpec.vo
+proofs/IterFacts.vio: proofs/IterFacts.v spec/Rules.vio base/Bits.vio base/Types.vio base/BitBoard.vio geom/Geometry.vio model/Board.vio model/MoveGen.vio proofs/BitsFacts.vio proofs/BitBoardFacts.vio spec/IterSpec.vio
+proofs/IterFacts.vos proofs/IterFacts.vok proofs/IterFacts.required_vos: proofs/IterFacts.v spec/Rules.vos base/Bits.vos base/Types.vos base/BitBoard.vos geom/Geometry.vos model/Board.vos model/MoveGen.vos proofs/BitsFacts.vos proofs/BitBoardFacts.vos spec/IterSpec.vos
 proofs/MagicSweep.vo proofs/MagicSweep.glob proofs/MagicSweep.v.beautified proofs/MagicSweep.required_vo: proofs/MagicSweep.v base/Bits.vo base/Types.vo base/Tree.vo base/Sweep.vo geom/Geometry.vo geom/Lookup.vo geom/Magic.vo gen/T_rook_moves.vo gen/T_bishop_moves.vo
 proofs/MagicSweep.vio: proofs/MagicSweep.v base/Bits.vio base/Types.vio base/Tree.vio base/Sweep.vio geom/Geometry.vio geom/Lookup.vio geom/Magic.vio gen/T_rook_moves.vio gen/T_bishop_moves.vio
 proofs/MagicSweep.vos proofs/MagicSweep.vok proofs/MagicSweep.required_vos: proofs/MagicSweep.v base/Bits.vos base/Types.vos base/Tree.vos base/Sweep.vos geom/Geometry.vos geom/Lookup.vos geom/Magic.vos gen/T_rook_moves.vos gen/T_bishop_moves.vos
@@ -160,12 +166,18 @@ props/C05.vos props/C05.vok props/C05.required_vos: props/C05.v base/Bits.vos ba
 props/C06.vo props/C06.glob props/C06.v.beautified props/C06.required_vo: props/C06.v base/Bits.vo base/Types.vo base/BitBoard.vo model/Board.vo model/Fen.vo spec/Rules.vo proofs/FenFacts.vo
 props/C06.vio: props/C06.v base/Bits.vio base/Types.vio base/BitBoard.vio model/Board.vio model/Fen.vio spec/Rules.vio proofs/FenFacts.vio
 props/C06.vos props/C06.vok props/C06.required_vos: props/C06.v base/Bits.vos base/Types.vos base/BitBoard.vos model/Board.vos model/Fen.vos spec/Rules.vos proofs/FenFacts.vos
+props/C07.vo props/C07.glob props/C07.v.beautified props/C07.required_vo: props/C07.v base/Bits.vo base/Types.vo base/BitBoard.vo geom/Geometry.vo geom/Lookup.vo model/Board.vo model/MoveGen.vo model/Fen.vo model/Book.vo gen/T_rook_moves.vo gen/T_bishop_moves.vo gen/T_book.vo spec/IterSpec.vo proofs/MagicSweep.vo proofs/BookFacts.vo proofs/FenFacts.vo proofs/IterFacts.vo
+props/C07.vio: props/C07.v base/Bits.vio base/Types.vio base/BitBoard.vio geom/Geometry.vio geom/Lookup.vio model/Board.vio model/MoveGen.vio model/Fen.vio model/Book.vio gen/T_rook_moves.vio gen/T_bishop_moves.vio gen/T_book.vio spec/IterSpec.vio proofs/MagicSweep.vio proofs/BookFacts.vio proofs/FenFacts.vio proofs/IterFacts.vio
+props/C07.vos props/C07.vok props/C07.required_vos: props/C07.v base/Bits.vos base/Types.vos base/BitBoard.vos geom/Geometry.vos geom/Lookup.vos model/Board.vos model/MoveGen.vos model/Fen.vos model/Book.vos gen/T_rook_moves.vos gen/T_bishop_moves.vos gen/T_book.vos spec/IterSpec.vos proofs/MagicSweep.vos proofs/BookFacts.vos proofs/FenFacts.vos proofs/IterFacts.vos
 props/C08.vo props/C08.glob props/C08.v.beautified props/C08.required_vo: props/C08.v base/Bits.vo base/Types.vo geom/Geometry.vo geom/Lookup.vo proofs/MagicSweep.vo gen/T_rook_moves.vo gen/T_bishop_moves.vo
 props/C08.vio: props/C08.v base/Bits.vio base/Types.vio geom/Geometry.vio geom/Lookup.vio proofs/MagicSweep.vio gen/T_rook_moves.vio gen/T_bishop_moves.vio
 props/C08.vos props/C08.vok props/C08.required_vos: props/C08.v base/Bits.vos base/Types.vos geom/Geometry.vos geom/Lookup.vos proofs/MagicSweep.vos gen/T_rook_moves.vos gen/T_bishop_moves.vos
 props/C09.vo props/C09.glob props/C09.v.beautified props/C09.required_vo: props/C09.v base/Bits.vo base/Types.vo base/BitBoard.vo geom/Geometry.vo geom/Lookup.vo geom/GenFns.vo proofs/GeomSweeps.vo proofs/PawnFacts.vo
 props/C09.vio: props/C09.v base/Bits.vio base/Types.vio base/BitBoard.vio geom/Geometry.vio geom/Lookup.vio geom/GenFns.vio proofs/GeomSweeps.vio proofs/PawnFacts.vio
 props/C09.vos props/C09.vok props/C09.required_vos: props/C09.v base/Bits.vos base/Types.vos base/BitBoard.vos geom/Geometry.vos geom/Lookup.vos geom/GenFns.vos proofs/GeomSweeps.vos proofs/PawnFacts.vos
+props/C10.vo props/C10.glob props/C10.v.beautified props/C10.required_vo: props/C10.v base/Bits.vo base/Types.vo base/BitBoard.vo model/Board.vo model/MoveGen.vo spec/IterSpec.vo proofs/IterFacts.vo
+props/C10.vio: props/C10.v base/Bits.vio base/Types.vio base/BitBoard.vio model/Board.vio model/MoveGen.vio spec/IterSpec.vio proofs/IterFacts.vio
+props/C10.vos props/C10.vok props/C10.required_vos: props/C10.v base/Bits.vos base/Types.vos base/BitBoard.vos model/Board.vos model/MoveGen.vos spec/IterSpec.vos proofs/IterFacts.vos
 props/C11.vo props/C11.glob props/C11.v.beautified props/C11.required_vo: props/C11.v base/Types.vo model/Score.vo model/Board.vo model/MoveGen.vo model/Search.vo spec/Rules.vo spec/GameTree.vo proofs/GameTreeFacts.vo proofs/SearchOrder.vo
 props/C11.vio: props/C11.v base/Types.vio model/Score.vio model/Board.vio model/MoveGen.vio model/Search.vio spec/Rules.vio spec/GameTree.vio proofs/GameTreeFacts.vio proofs/SearchOrder.vio
 props/C11.vos props/C11.vok props/C11.required_vos: props/C11.v base/Types.vos model/Score.vos model/Board.vos model/MoveGen.vos model/Search.vos spec/Rules.vos spec/GameTree.vos proofs/GameTreeFacts.vos proofs/SearchOrder.vos
@@ -178,6 +190,9 @@ props/C13.vos props/C13.vok props/C13.required_vos: props/C13.v base/Types.vos m
 props/C14.vo props/C14.glob props/C14.v.beautified props/C14.required_vo: props/C14.v model/Score.vo proofs/ScoreOrder.vo
 props/C14.vio: props/C14.v model/Score.vio proofs/ScoreOrder.vio
 props/C14.vos props/C14.vok props/C14.required_vos: props/C14.v model/Score.vos proofs/ScoreOrder.vos
+props/C15.vo props/C15.glob props/C15.v.beautified props/C15.required_vo: props/C15.v base/Types.vo model/Board.vo model/MoveGen.vo model/Apply.vo model/Search.vo model/Bot.vo
+props/C15.vio: props/C15.v base/Types.vio model/Board.vio model/MoveGen.vio model/Apply.vio model/Search.vio model/Bot.vio
+props/C15.vos props/C15.vok props/C15.required_vos: props/C15.v base/Types.vos model/Board.vos model/MoveGen.vos model/Apply.vos model/Search.vos model/Bot.vos
 props/C16.vo props/C16.glob props/C16.v.beautified props/C16.required_vo: props/C16.v model/Score.vo model/Abi.vo proofs/AbiFacts.vo
 props/C16.vio: props/C16.v model/Score.vio model/Abi.vio proofs/AbiFacts.vio
 props/C16.vos props/C16.vok props/C16.required_vos: props/C16.v model/Score.vos model/Abi.vos proofs/AbiFacts.vos
@@ -196,6 +211,9 @@ props/C20.vos props/C20.vok props/C20.required_vos: props/C20.v model/Tracing.vo
 spec/GameTree.vo spec/GameTree.glob spec/GameTree.v.beautified spec/GameTree.required_vo: spec/GameTree.v model/Score.vo
 spec/GameTree.vio: spec/GameTree.v model/Score.vio
 spec/GameTree.vos spec/GameTree.vok spec/GameTree.required_vos: spec/GameTree.v model/Score.vos
+spec/IterSpec.vo spec/IterSpec.glob spec/IterSpec.v.beautified spec/IterSpec.required_vo: spec/IterSpec.v base/Bits.vo base/Types.vo base/BitBoard.vo model/MoveGen.vo
+spec/IterSpec.vio: spec/IterSpec.v base/Bits.vio base/Types.vio base/BitBoard.vio model/MoveGen.vio
+spec/IterSpec.vos spec/IterSpec.vok spec/IterSpec.required_vos: spec/IterSpec.v base/Bits.vos base/Types.vos base/BitBoard.vos model/MoveGen.vos
 spec/Rules.vo spec/Rules.glob spec/Rules.v.beautified spec/Rules.required_vo: spec/Rules.v base/Bits.vo base/Types.vo geom/Geometry.vo
 spec/Rules.vio: spec/Rules.v base/Bits.vio base/Types.vio geom/Geometry.vio
 spec/Rules.vos spec/Rules.vok spec/Rules.required_vos: spec/Rules.v base/Bits.vos base/Types.vos geom/Geometry.vos
